@@ -387,6 +387,10 @@ def bits_to_target(bits):
     coefficient = little_endian_to_int(bits[:-1])
     # the formula is:
     # coefficient * 256**(exponent-3)
+    # (for exponents below 3 the coefficient is shifted right instead,
+    # which keeps the target an integer)
+    if exponent < 3:
+        return coefficient >> (8 * (3 - exponent))
     return coefficient * 256 ** (exponent - 3)
 
 
